@@ -57,6 +57,8 @@ KEYC = {"commit1": "KCommit1", "ack1": "KAck1", "receipt1": "KReceipt1", "nextre
         "commit2": "KCommit2", "ack2": "KAck2", "receipt2": "KReceipt2"}
 
 def enc_proof(p):
+    if p is not None and p["tag"] == "sentinel":
+        return "PSentinel"
     if p is None or p["tag"] != "honest":
         return "PGarbage"
     k = p["key"]
@@ -97,6 +99,8 @@ def enc_op(o):
         op = "OCloseChan %s %s" % (N(o["port"]), N(o["chan"]))
     else:
         raise ValueError("op kind " + k)
+    if k == "timeoutclose1":
+        return "(WPacketC (%s) %s %s)" % (op, pf, enc_proof(o.get("proof_closed")))
     return "(WPacket (%s) %s)" % (op, pf)
 
 def enc_event(e):
@@ -197,7 +201,7 @@ def enc_hist(r):
         lst([x for x in sc if x[4]], lambda x: N(x[0])))
     # non-canonical v1 ack bytes: flagged per op by the harness
     noncanon = sorted({s["op"]["ack"] for s in h["steps"] if s["op"].get("noncanon")})
-    world = "(mkWorld %s %s %s (fun d => existsb (N.eqb d) %s))" % (enc_chain(init["chains"][0]), enc_chain(init["chains"][1]), script, lst(noncanon, N))
+    world = "(mkWorld %s %s %s (fun d => existsb (N.eqb d) %s) %s)" % (enc_chain(init["chains"][0]), enc_chain(init["chains"][1]), script, lst(noncanon, N), N(init.get("lh", 0)))
     # both chains have the same channel/client id sets in this family only up to naming: probe the union
     chans = []
     ids = []
@@ -368,6 +372,18 @@ def mon_hist(r, pid):
             if tgt in closed_at and closed_at[tgt] < i:
                 return "step %d: %s succeeded on ORDERED channel %s closed by a timeout at step %d" % (i, k, tgt, closed_at[tgt])
         prev_proj[ci] = pj
+    # loopback channels (both ends on the same chain, connection-localhost)
+    ids = h.get("ids", [])
+    lh_conn = (ids.index("connection-localhost") + 1) if "connection-localhost" in ids else None
+    loop = set()
+    for ci, c in enumerate(h["init"]["chains"]):
+        for x in c["chans"]:
+            if x[6] == lh_conn:
+                loop.add((ci, x[0], x[1]))
+    def sender_of(ci, port, chan):      # chain that sent a packet received on (ci, port, chan)
+        return ci if (ci, port, chan) in loop else 1 - ci
+    def dest_of(ci, port, chan):        # chain that receives a packet sent from (ci, port, chan)
+        return ci if (ci, port, chan) in loop else 1 - ci
     # cross-chain: C04 (timed out => never received), C05/C06 evidence
     if pid == "C04":
         recvd = set()
@@ -375,7 +391,7 @@ def mon_hist(r, pid):
         for i, s in enumerate(steps):
             for e in s["evs"]:
                 if e[0] == "recv1":
-                    recvd.add(("1", 1 - s["c"], e[1], e[2], int(e[3])))
+                    recvd.add(("1", sender_of(s["c"], e[1], e[2]), e[1], e[2], int(e[3])))
                 if e[0] == "recv2":
                     recvd.add(("2", 1 - s["c"], e[1], int(e[2])))
             if s["out"] == "ok" and s["op"]["k"] in ("timeout1", "timeoutclose1"):
@@ -393,7 +409,8 @@ def mon_hist(r, pid):
         for i, s in enumerate(steps):
             if s["out"] == "ok" and s["op"]["k"] in ("timeout1",):
                 p = s["op"]["p"]
-                d = last[1 - s["c"]]
+                dchain = dest_of(s["c"], p["sp"], p["sc"])
+                d = (s["h"], s["t"]) if dchain == s["c"] else last[dchain]
                 if d is not None:
                     dh, dt = (int(d[0][0]), int(d[0][1])), int(d[1])
                     th = (int(p["th"][0]), int(p["th"][1])); tt = int(p["tt"])
@@ -418,7 +435,7 @@ def mon_hist(r, pid):
                 sent2[(s["c"], op["src"], int(s["ret_seq"]))] = (op["tt"], op["pay"])
             if pid == "C05" and s["out"] == "ok" and k == "recv1":
                 p = op["p"]
-                if sent1.get((1 - s["c"], p["sp"], p["sc"], int(p["seq"]))) != (p["data"], p["th"], p["tt"]):
+                if sent1.get((sender_of(s["c"], p["dp"], p["dc"]), p["sp"], p["sc"], int(p["seq"]))) != (p["data"], p["th"], p["tt"]):
                     return "step %d: received a v1 packet the counterparty never sent with these fields: %s" % (i, p)
             if pid == "C05" and s["out"] == "ok" and k == "recv2":
                 q = op["q"]
@@ -428,7 +445,7 @@ def mon_hist(r, pid):
                 p = op["p"]
                 if sent1.get((s["c"], p["sp"], p["sc"], int(p["seq"]))) != (p["data"], p["th"], p["tt"]):
                     return "step %d: acknowledged a packet that was not sent with these fields" % i
-                a = [x for st in steps[:i] if st["c"] == 1 - s["c"] for x in st["proj"]["a1"] if (x[0], x[1], x[2]) == (p["dp"], p["dc"], p["seq"])]
+                a = [x for st in steps[:i] if st["c"] == dest_of(s["c"], p["sp"], p["sc"]) for x in st["proj"]["a1"] if (x[0], x[1], x[2]) == (p["dp"], p["dc"], p["seq"])]
                 if not a or a[-1][3] != op["ack"]:
                     return "step %d: processed acknowledgement %s but the counterparty wrote %s" % (i, op["ack"], a[-1:] )
             if pid == "C06" and s["out"] == "ok" and k == "ack2":
